@@ -37,6 +37,9 @@ var codecPairs = []codecPair{
 
 func c03() []*Ob {
 	return []*Ob{
+		{Prop: "C03", ID: "C03.15", Engine: "ORDER+LOCK(publish)", Floor: 2,
+			Desc:  "a reloaded sealed fraction answers like the freshly sealed one from its first request on: Sealed.load sets isLoaded only after Loader.Load has returned, and both run with loadMu held — with the flag set first and the load moved out of the lock, a second request that arrives during the first one's load sees 'loaded' and works on empty tables",
+			Check: func(c *Ctx) { loadedMeansLoaded(c) }},
 		{Prop: "C03", ID: "C03.13", Engine: "OWN(copy out of scratch)", Floor: 2,
 			Desc:  "a cached block is not a window into a reused buffer: lids.Chunks.unpack assigns the slice fields of the Chunks (which goes into the LIDs cache) only copies — never the scratch buffer the loader hands in, or a sub-slice of it. A 'zero-copy' hand-over of a block that is one big chunk leaves the cache entry pointing into memory that the loader refills with the next block: cold caches answer right, warm caches wrong",
 			Check: func(c *Ctx) { decodedOwnsItsMemory(c) }},
